@@ -2,6 +2,6 @@
 
 package packet
 
-func verifReceive(*Writer, *Reader, *Packet, uint64) func() { return verifNoop }
+func verifReceive(*Writer, *Reader, *Packet, uint64, uint64) func() { return verifNoop }
 
 func verifNoop() {}
